@@ -276,7 +276,11 @@ def check(ctx):
         if isinstance(n, ast.Call) and P.call_name(n) in ('sorted', 'reversed') or (isinstance(n, ast.Call) and isinstance(n.func, ast.Attribute)
                                                                                      and n.func.attr in ('sort', 'reverse')):
             fn = P.enclosing_function(n)
-            r4.check('source-position' in P.src(n), 'reader reorders: %s' % (fn.name if fn else '?'), rm.rel, n.lineno,
+            subject = P.src(n)
+            if isinstance(n.func, ast.Attribute) and isinstance(n.func.value, ast.Name) and fn is not None:
+                # in-place sort of a local: what is sorted is whatever the local was filled with
+                subject += ' ' + ' '.join(P.src(v) for t, v, st in P.stores_in(fn) if isinstance(t, ast.Name) and t.id == n.func.value.id and v is not None)
+            r4.check('source-position' in subject, 'reader reorders: %s' % (fn.name if fn else '?'), rm.rel, n.lineno,
                      'GIRParser reorders children: %s' % P.src(n)[:80], detail='only source positions are sorted')
 
     # ------------------------------------------------------------------ R5 lossless text (shared with C20)
